@@ -1,4 +1,4 @@
-import OsacaVerif.Lemmas.A64Float
+import OsacaVerif.Lemmas.A64Vector
 /-
   Identifiers (label operands) `.L4`, `loop`, `_foo.bar2`.
 -/
@@ -14,7 +14,7 @@ def ciPrefix : Txt → Txt → Bool
 /-- a caseless keyword `l` that begins with the all-letter word `sw` does not match a text that does
     not begin with `sw`, when the text is followed by a gap, comma, comment or the end -/
 theorem dropPrefixCI_none_word (sw tl w rest : Txt) (hsw : ∀ a ∈ sw, isAlphaC a = true)
-    (hno : ciPrefix sw w = false) (hf : Follow rest) : dropPrefixCI (w ++ rest) (sw ++ tl) = none := by
+    (hno : ciPrefix sw w = false) (hf : NoAlphaHead rest) : dropPrefixCI (w ++ rest) (sw ++ tl) = none := by
   induction w generalizing sw with
   | nil =>
     cases sw with
@@ -24,11 +24,7 @@ theorem dropPrefixCI_none_word (sw tl w rest : Txt) (hsw : ∀ a ∈ sw, isAlpha
       cases rest with
       | nil => rfl
       | cons c r =>
-        have : lowerC c ≠ a := by
-          rcases hf.head c r rfl with hb | rfl | rfl | rfl
-          · simp [isBlankC] at hb
-            rcases hb with rfl | rfl <;> (intro h; subst h; simp [lowerC, isAlphaC] at ha)
-          all_goals (intro h; subst h; simp [lowerC, isAlphaC] at ha)
+        have := lowerC_ne_alpha c a (hf c r rfl) ha
         simp [dropPrefixCI, this]
   | cons c w ih =>
     cases sw with
@@ -67,7 +63,7 @@ theorem startsWith_split (l sw : Txt) (h : startsWith l sw = true) : ∃ tl, l =
 /-- no keyword of a list matches a name that begins with none of the list's words -/
 theorem clitOr_none_words (ls words : List Txt) (g name rest : Txt) (c : Nat) (w : Txt) (hn : name = c :: w)
     (hc : isWs c = false) (hg : Blank g) (hcover : ∀ l ∈ ls, words.any (fun sw => startsWord sw l) = true)
-    (hno : words.all (fun sw => !ciPrefix sw name) = true) (hf : Follow rest) :
+    (hno : words.all (fun sw => !ciPrefix sw name) = true) (hf : NoAlphaHead rest) :
     clitOr true ls (g ++ (name ++ rest)) = none := by
   apply clitOr_none
   intro l hl
@@ -104,15 +100,29 @@ structure IdentNameOk (name : Txt) : Prop where
   noShift : shiftWords.all (fun sw => !ciPrefix sw name) = true
   noPrf : prfWords.all (fun sw => !ciPrefix sw name) = true
 
-theorem headStop_not_alpha (rest : Txt) (hs : HeadStop rest) (c : Nat) (r : Txt) (h : rest = c :: r) :
-    isAlphaC c = false ∧ isDigitC c = false := by
-  rcases hs.head c r h with hb | rfl | rfl | rfl
-  · simp [isBlankC] at hb; rcases hb with rfl | rfl <;> exact ⟨by decide, by decide⟩
-  all_goals exact ⟨by decide, by decide⟩
+/-- what may follow a label name: no letter or digit directly behind it, and no digit after white space -/
+structure NameEnd (rest : Txt) : Prop where
+  head : ∀ c r, rest = c :: r → isAlphaC c = false ∧ isDigitC c = false
+  next : ∀ c r, skipWs rest = c :: r → isDigitC c = false
+
+theorem NameEnd.noAlpha {rest : Txt} (h : NameEnd rest) : NoAlphaHead rest := fun c r hc => (h.head c r hc).1
+
+theorem Follow.nameEnd {rest : Txt} (hf : Follow rest) : NameEnd rest := by
+  refine ⟨?_, ?_⟩
+  · intro c r h
+    rcases hf.head c r h with hb | rfl | rfl | rfl
+    · simp [isBlankC] at hb; rcases hb with rfl | rfl <;> exact ⟨by decide, by decide⟩
+    all_goals exact ⟨by decide, by decide⟩
+  · intro c r h
+    rcases hf.next c r h with rfl | rfl | rfl <;> decide
+
+theorem nameEnd_plus (t : Txt) : NameEnd (43 :: t) :=
+  ⟨fun c r h => by simp at h; rw [← h.1]; exact ⟨by decide, by decide⟩,
+   fun c r h => by simp [skipWs, isWs] at h; rw [← h.1]; decide⟩
 
 /-- two letters at the start of `w ++ rest` are two letters of `w` -/
 theorem startsWith_two (w rest : Txt) (a b : Nat) (ha : isAlphaC a = true) (hb : isAlphaC b = true)
-    (hs : HeadStop rest) (h : startsWith (w ++ rest) [a, b] = true) :
+    (hs : NoAlphaHead rest) (h : startsWith (w ++ rest) [a, b] = true) :
     startsWith (lower w) [lowerC a, lowerC b] = true := by
   match w with
   | [] =>
@@ -120,14 +130,14 @@ theorem startsWith_two (w rest : Txt) (a b : Nat) (ha : isAlphaC a = true) (hb :
     | nil => simp [startsWith] at h
     | cons c r =>
       simp only [List.nil_append, startsWith, Bool.and_eq_true, beq_iff_eq] at h
-      have := (headStop_not_alpha _ hs c r rfl).1
+      have := hs c r rfl
       rw [h.1, ha] at this; cases this
   | [x] =>
     cases rest with
     | nil => simp [startsWith] at h
     | cons c r =>
       simp only [List.cons_append, List.nil_append, startsWith, Bool.and_eq_true, beq_iff_eq] at h
-      have := (headStop_not_alpha _ hs c r rfl).1
+      have := hs c r rfl
       rw [h.2.1, hb] at this; cases this
   | x :: y :: w' =>
     simp only [List.cons_append, startsWith, Bool.and_eq_true, beq_iff_eq] at h
@@ -151,7 +161,7 @@ theorem alias_names_lower (n : Txt) (hn : n ∈ A64.aliasSp ++ A64.aliasZr) :
     exact ⟨a, b, rfl, this.1.1, this.1.2, this.2⟩
 
 theorem aliasP_none_ident (names : List Txt) (hsub : ∀ n ∈ names, n ∈ A64.aliasSp ++ A64.aliasZr)
-    (g : Txt) (c : Nat) (w rest : Txt) (hg : Blank g) (hc : isWs c = false) (hs : HeadStop rest)
+    (g : Txt) (c : Nat) (w rest : Txt) (hg : Blank g) (hc : isWs c = false) (hs : NoAlphaHead rest)
     (hno : aliasLike (c :: w) = false) : aliasP names (g ++ (c :: w ++ rest)) = none := by
   have hno' : ∀ a ∈ [ofString "sp", ofString "zr"],
       startsWith (lower (c :: w)) a = false ∧ startsWith ((lower (c :: w)).drop 1) a = false := by
@@ -188,7 +198,7 @@ theorem idRest_not_ws (c : Nat) (h : isIdRestC c = true) : isWs c = false := by
   simp only [isWs]; simp; omega
 
 /-- behind a register letter of a label name no register number follows -/
-theorem word_digits_none (c : Nat) (w rest : Txt) (hw : ∀ d ∈ w, isIdRestC d = true) (hf : Follow rest)
+theorem word_digits_none (c : Nat) (w rest : Txt) (hw : ∀ d ∈ w, isIdRestC d = true) (hf : NameEnd rest)
     (hreg : regLike (c :: w) = false) (hl : regLetters.contains (lowerC c) = true) :
     word true isDigitC (w ++ rest) = none := by
   simp only [word, sk_true]
@@ -201,7 +211,7 @@ theorem word_digits_none (c : Nat) (w rest : Txt) (hw : ∀ d ∈ w, isIdRestC d
       apply wordNS_none
       intro d' r' h
       simp at h; rw [← h.1]
-      rcases hf.next d r hs with rfl | rfl | rfl <;> decide
+      exact hf.next d r hs
   | cons x w' =>
     have hx := idRest_not_ws x (hw x (by simp))
     rw [List.cons_append, skipWs_cons x _ hx]
@@ -214,10 +224,10 @@ theorem word_digits_none (c : Nat) (w rest : Txt) (hw : ∀ d ∈ w, isIdRestC d
     exact this
 
 theorem registerP_none_ident (g : Txt) (c : Nat) (w rest : Txt) (hg : Blank g) (hc : isIdFirstC c = true)
-    (hw : ∀ d ∈ w, isIdRestC d = true) (hf : Follow rest) (hreg : regLike (c :: w) = false)
+    (hw : ∀ d ∈ w, isIdRestC d = true) (hf : NameEnd rest) (hreg : regLike (c :: w) = false)
     (hal : aliasLike (c :: w) = false) : registerP (g ++ (c :: w ++ rest)) = none := by
   obtain ⟨hws, _, _, _, _, _, _, h123⟩ := idFirst_facts c hc
-  have hs := hf.headStop
+  have hs := hf.noAlpha
   have ha1 := aliasP_none_ident A64.aliasSp (fun n hn => by simp [hn]) g c w rest hg hws hs hal
   have ha2 := aliasP_none_ident A64.aliasZr (fun n hn => by simp [hn]) g c w rest hg hws hs hal
   have hform : g ++ (c :: w ++ rest) = g ++ c :: (w ++ rest) := by simp
@@ -294,7 +304,7 @@ theorem condLits_two (l : Txt) (h : l ∈ condLits) : ∃ a b, l = [a, b] ∧ is
 
 /-- on a label name the condition alternative matches nothing, or two letters of a longer name -/
 theorem conditionP_ident (g : Txt) (c : Nat) (w rest : Txt) (hg : Blank g) (hc : isIdFirstC c = true)
-    (hw : ∀ d ∈ w, isIdRestC d = true) (hf : Follow rest) (hno : condLits.contains (lower (c :: w)) = false) :
+    (hw : ∀ d ∈ w, isIdRestC d = true) (hf : NoAlphaHead rest) (hno : condLits.contains (lower (c :: w)) = false) :
     conditionP (g ++ c :: (w ++ rest)) = none ∨
     ∃ x d e t, w = d :: e :: t ∧ conditionP (g ++ c :: (w ++ rest)) = some (x, e :: (t ++ rest)) := by
   have hws := (idFirst_facts c hc).1
@@ -315,7 +325,7 @@ theorem conditionP_ident (g : Txt) (c : Nat) (w rest : Txt) (hg : Blank g) (hc :
         intro x hx
         have : x = b := by simpa using hx.symm
         rw [this]; exact hb
-      have := dropPrefixCI_none_follow [c] [a, b] rest (by simp) hnx hf
+      have := dropPrefixCI_none_nonalpha [c] [a, b] rest (by simp) hnx hf
       simp only [List.cons_append, List.nil_append] at this hc1
       rw [this] at hc1; cases hc1
     | [d], _, hno =>
@@ -356,7 +366,7 @@ theorem goodOp_ident (name : Txt) (hok : IdentNameOk name) :
       identifier (g ++ c :: (w ++ rest)) = some (⟨none, c :: w, none⟩, skipWs rest) ∧
       memoryP (g ++ c :: (w ++ rest)) = none ∧ arithP (g ++ c :: (w ++ rest)) = none := by
     intro g rest hg hf
-    have hreg := registerP_none_ident g c w rest hg hc hw hf hok.noReg hok.noAlias
+    have hreg := registerP_none_ident g c w rest hg hc hw hf.nameEnd hok.noReg hok.noAlias
     rw [hform] at hreg
     have himm := immediate_word' g c w rest hg hc hw (hf.stops isIdRestC rest (by decide))
         (lit_none_of_follow rest hf 43 [] (by omega))
@@ -369,7 +379,7 @@ theorem goodOp_ident (name : Txt) (hok : IdentNameOk name) :
     obtain ⟨hreg, himm, _, hmem, har⟩ := hcommon g rest hg hf
     refine ⟨skipWs rest, ?_, skipWs_idem rest⟩
     rw [hform]
-    rcases conditionP_ident g c w rest hg hc hw hf hok.noCond with hcn | ⟨x, d, e, t, hwe, hcs⟩
+    rcases conditionP_ident g c w rest hg hc hw hf.noAlphaHead hok.noCond with hcn | ⟨x, d, e, t, hwe, hcs⟩
     · simp [operandRest, hcn, hreg, himm, hmem, arithOp, har]
     · have he : isWordEndC e = true := idRest_wordEnd e (hw e (by rw [hwe]; simp))
       have hlt : (skipWs rest).length < (e :: (t ++ rest)).length := by
@@ -381,7 +391,7 @@ theorem goodOp_ident (name : Txt) (hok : IdentNameOk name) :
     obtain ⟨hreg, himm, hid, hmem, har⟩ := hcommon g rest hg hf
     have hprf : prefetchP (g ++ c :: (w ++ rest)) = none := by
       have := clitOr_none_words (A64.prfTypes.map lower) prfWords g (c :: w) rest c w rfl hws hg prfTypes_words
-        hok.noPrf hf
+        hok.noPrf hf.noAlphaHead
       rw [hform] at this
       simp [prefetchP, this]
     refine ⟨skipWs rest, ?_, skipWs_idem rest⟩
@@ -390,7 +400,8 @@ theorem goodOp_ident (name : Txt) (hok : IdentNameOk name) :
       orElseR_none_left, better_none_left, better_none_right]
     rw [better_some_ge _ _ _ _ (Nat.le_refl _)]
   · intro g rest hg hf
-    exact clitOr_none_words A64.shiftOps shiftWords g (c :: w) rest c w rfl hws hg shiftOps_words hok.noShift hf
+    exact clitOr_none_words A64.shiftOps shiftWords g (c :: w) rest c w rfl hws hg shiftOps_words hok.noShift
+      (After.follow hf).noAlphaHead
   · refine ⟨c, w, rfl, hws, h58, ?_⟩
     simp only [isIdFirstC, isAlphaC, A64.identFirstExtra] at hc; simp at hc; omega
 
@@ -404,7 +415,7 @@ theorem covered_ident (last fst : Bool) (name : Txt) (hok : IdentNameOk name) :
     have := (goodOp_ident name hok).any last
     cases fst with
     | true => simpa [joinInner] using this.toFirst
-    | false => simpa [joinInner] using this.notFirst
+    | false => simpa [joinInner] using this.toRest
   · simp [processOperand, processImmediate, expectOp, expectIdent, optMap]
 
 end OsacaVerif.ParseA64
